@@ -161,6 +161,11 @@ macro_rules! consume {
             "split_inclusive" => format!("{:?}", h.split_inclusive($p).collect::<Vec<_>>()),
             "split_once" => format!("{:?}", h.split_once($p)),
             "replace" => format!("{:?}", h.replace($p, "<>")),
+            // a one-byte replacement takes std's ASCII fast path when the pattern claims (through
+            // Pattern::as_utf8_pattern) to be a one-byte string; rendered as bytes because the
+            // result need not be UTF-8 if that claim is wrong
+            "replace1" => format!("{:?}", h.replace($p, "-").as_bytes()),
+            "replace_empty" => format!("{:?}", h.replace($p, "").as_bytes()),
             "replacen" => format!("{:?}", h.replacen($p, "<>", 1)),
             "starts_with" => format!("{:?}", h.starts_with($p)),
             "strip_prefix" => format!("{:?}", h.strip_prefix($p)),
@@ -245,6 +250,7 @@ const CONSUMERS: &[&str] = &[
     "find", "contains", "matches", "match_indices", "split", "splitn", "split_terminator", "split_inclusive", "replace", "replacen", "starts_with", "strip_prefix", "trim_start_matches",
     "rfind", "rmatches", "rmatch_indices", "rsplit", "rsplitn", "rsplit_terminator", "ends_with", "strip_suffix", "trim_end_matches", "split_once", "rsplit_once",
     "splitn3", "splitn1", "rsplitn3", "replacen2", "replacen0", "split_skip", "matches_nth", "rmatches_last", "split_count",
+    "replace1", "replace_empty", "as_utf8_pattern",
 ];
 
 #[derive(Clone, Debug, PartialEq)]
@@ -588,6 +594,36 @@ fn run_consumer(name: &str, re: &Regex, h: &str, f: &[(usize, usize)]) -> Option
         }
     }
     match name {
+        "as_utf8_pattern" => {
+            // Pattern::as_utf8_pattern is a promise to std: "treat me as this plain string / char"
+            // (str::replace acts on it). Whatever it claims must find what find_iter finds.
+            use std::str::pattern::Utf8Pattern;
+            let claim: Option<Vec<u8>> = match re.as_utf8_pattern() {
+                None => None,
+                Some(Utf8Pattern::StringPattern(b)) => Some(b.to_vec()),
+                Some(Utf8Pattern::CharPattern(c)) => Some(c.to_string().into_bytes()),
+            };
+            if let Some(b) = claim {
+                let hb = h.as_bytes();
+                let mut occ: Vec<(usize, usize)> = Vec::new();
+                if b.is_empty() {
+                    occ = h.char_indices().map(|(i, _)| (i, i)).chain(std::iter::once((h.len(), h.len()))).collect();
+                } else {
+                    let mut i = 0;
+                    while i + b.len() <= hb.len() {
+                        if &hb[i..i + b.len()] == b.as_slice() {
+                            occ.push((i, i + b.len()));
+                            i += b.len();
+                        } else {
+                            i += 1;
+                        }
+                    }
+                }
+                if occ != f {
+                    return Some(("U-as_utf8_pattern-claim-disagrees-with-find_iter".into(), format!("as_utf8_pattern() claims the plain byte string {:?}, whose occurrences are {:?}; find_iter gives {:?}", b, occ, f)));
+                }
+            }
+        }
         "find" => {
             let got = h.find(re);
             let exp = f.first().map(|m| m.0);
